@@ -91,6 +91,24 @@ def check(ck):
                 okk = t == ("param", "config")
             else:
                 okk = t is not None and t[0] == "or" and t[1][0] == ("param", name)
+                if not okk and t is not None:
+                    # the parameter normalised another way (a helper turning None / a single name / any iterable into a list): every
+                    # alternative is built from the function's own parameter only, and at least one carries it
+                    def _own(a_):
+                        if a_ == ("param", name) or a_ in (("tuple", ()), ("other", "[]"), ("const", None)):
+                            return True
+                        if a_[0] == "or":
+                            return all(_own(x) for x in a_[1])
+                        if a_[0] == "call" and a_[1][0] == "global" and a_[1][1] in ("list", "tuple", "sorted", "set", "frozenset"):
+                            return all(_own(x) for x in a_[2])
+                        if a_[0] == "tuple":
+                            return all(_own(x) for x in a_[1])
+                        if a_[0] == "other":
+                            return a_[1] in ("[%s]" % name, "(%s,)" % name)
+                        return False
+                    alts_ = prov.value_alts(t)
+                    okk = all(_own(a_) for a_ in alts_) and any(prov.contains(a_, lambda x: x == ("param", name)) or
+                                                               (a_[0] == "other" and name in a_[1]) for a_ in alts_)
             ck.require(okk, "C20.2", "%s: recursive `%s` forwards %s" % (where, dump(c)[:40], name), "own normalised %s" % name,
                        "a nested value is dumped with %s as `%s`: the caller's customisation is not honoured below this level"
                        % (prov.show(t) if t else "the default", name), q.loc(fd, n))
@@ -99,6 +117,28 @@ def check(ck):
     # ---- C20.3 ignore filtering ----------------------------------------------------------------------------
     il = [n for n in g.live_nodes() if n.kind == "stmt" and isinstance(n.ast, ast.Assign) and isinstance(n.ast.targets[0], ast.Name)
           and "getattr" in dump(n.ast.value) and "ignore" in dump(n.ast.value)]
+    # the list actually used as filter: the argument of fields.difference_update(...); when it is not the variable bound by that
+    # one assignment, the list is assembled in several steps (normalising helper, .extend(ignore), +=)
+    du0 = [(n, c) for n in g.live_nodes() for c in node_calls(n) if call_name(c) == "difference_update" and len(c.args) == 1]
+    if len(il) == 1 and len(du0) == 1 and isinstance(du0[0][1].args[0], ast.Name) and du0[0][1].args[0].id != il[0].ast.targets[0].id:
+        xv = du0[0][1].args[0].id
+        contrib = [prov.origin(g, du0[0][0], du0[0][1].args[0])]
+        for n_ in g.live_nodes():
+            for c_ in node_calls(n_):
+                if isinstance(c_.func, ast.Attribute) and dump(c_.func.value) == xv and c_.func.attr in ("extend", "append", "update", "insert") and c_.args:
+                    contrib.append(prov.origin(g, n_, c_.args[-1]))
+            if n_.kind == "stmt" and isinstance(n_.ast, ast.AugAssign) and dump(n_.ast.target) == xv:
+                contrib.append(prov.origin(g, n_, n_.ast.value))
+        has_own = any(prov.contains(c_, lambda x: x[0] == "call" and x[1] == ("global", "getattr") and len(x[2]) >= 2 and x[2][0] == ("param", "obj") and
+                                    prov.contains(x[2][1], lambda y: y == ("param", "ignore_attribute"))) for c_ in contrib)
+        has_arg = any(prov.contains(c_, lambda x: x == ("param", "ignore")) for c_ in contrib)
+        if has_own and has_arg:
+            raise AnalysisError("the ignore list of jsonclass.dump (`%s`) is assembled in several steps from both sources: not modelled" % xv)
+        ck.bad("C20.3", "%s: filter list `%s`" % (where, xv),
+               "the list removed from the field set is built from %s only: it must combine the object's own list (attribute named by "
+               "ignore_attribute) AND the ignore argument" % ("the object's own list" if has_own else "the ignore argument" if has_arg else "neither source"),
+               q.loc(fd, du0[0][0]))
+        raise AnalysisError("the ignore list of jsonclass.dump (`%s`) has an unknown construction" % xv)
     if len(il) != 1:
         raise AnalysisError("anchor vanished: the ignore-list assignment in jsonclass.dump (found %d)" % len(il))
     iln = il[0]
